@@ -1,10 +1,11 @@
 #!/bin/sh
-# tools/seedmatrix.sh : every seeded change against the check of its own property (quick tier); prints one summary line per seed
+# tools/seedmatrix.sh [seeded/<tag>...] : every seeded change against the check of its own property (quick tier); one summary line per seed
 cd /verif
-for d in ${@:-seeded/C*}; do
-  id=$(basename $d)
+for d in ${@:-seeded/*}; do
+  tag=$(basename $d); id=$(echo $tag | sed 's/^R[0-9]_//')
+  if ! git -C /repo apply --check $(readlink -f $d/patch.diff) 2>/dev/null; then echo "$tag PATCH-DOES-NOT-APPLY"; continue; fi
   out=$(tools/seedtest.sh $d/patch.diff $id 2>&1)
   n=$(echo "$out" | grep -c "^VIOLATION")
-  echo "$id violations=$n $(echo "$out" | grep -E "^C[0-9][0-9] (quick|thorough)" | cut -c1-120)"
+  echo "$tag violations=$n $(echo "$out" | grep -E "^C[0-9][0-9] (quick|thorough)" | cut -c1-110)"
 done
 git -C /repo status --short | head -3
